@@ -26,6 +26,8 @@ use std::rc::Rc;
 use std::time::{Duration, SystemTime};
 
 pub const TSI: u64 = 1;
+/// `flute::receiver::fdtreceiver::MAX_FDT_SIZE` (not exported): 16 MiB
+const MAX_FDT_SIZE: i64 = 16 * 1024 * 1024;
 
 pub fn st(us: i64) -> SystemTime {
     if us >= 0 {
@@ -165,7 +167,8 @@ pub struct RecvEngine {
     max_xml: usize,
     /// allocation-oracle classes already reported in this case (each class once per case)
     heap_reported: std::collections::HashSet<String>,
-    heap17_reported: bool,
+    /// C17 heap classes already reported in this case (each class once per case)
+    heap17_reported: std::collections::HashSet<String>,
     /// payload bytes received so far per key (TOI, or FDT instance)
     rx_bytes: HashMap<u128, i64>,
     /// the `cfg` op of the current case (handed to the child process of `iso`)
@@ -226,7 +229,7 @@ fn panic_class(loc: &str) -> String {
 
 impl RecvEngine {
     pub fn new() -> RecvEngine {
-        RecvEngine { rx: None, rx0: None, cfg: Cfg::default(), dead: false, hist: HashMap::new(), sh: Shadow::default(), max_xml: 0, heap_reported: Default::default(), heap17_reported: false, rx_bytes: HashMap::new(), cfg_line: String::new(), iso_n: 0, cur_encoded: false, ann: HashMap::new(), grown_toi0: 0, cur_key: 0, cur_is_toi0: false }
+        RecvEngine { rx: None, rx0: None, cfg: Cfg::default(), dead: false, hist: HashMap::new(), sh: Shadow::default(), max_xml: 0, heap_reported: Default::default(), heap17_reported: Default::default(), rx_bytes: HashMap::new(), cfg_line: String::new(), iso_n: 0, cur_encoded: false, ann: HashMap::new(), grown_toi0: 0, cur_key: 0, cur_is_toi0: false }
     }
 
     /// bytes that an announcement (EXT_FTI, or a File entry of an FDT) explains for `key`
@@ -308,9 +311,11 @@ impl RecvEngine {
             //   :announced-block <= 4 x (first two source blocks + per-symbol tables + block table that the
             //                    EXT_FTI of this TOI announces), the announcement itself being limited by the
             //                    codes' K maxima (No-Code 65536 since ee3ccfa) times the 16-bit symbol length
-            let cls = if self.cur_is_toi0 && !self.cur_encoded && peak <= call_bound + 64 * got.min(self.sh.max_len() as i64) {
+            // since 2037586 the document stops at MAX_FDT_SIZE: both FDT classes are also bounded by 8 copies of it
+            let fdt_cap = call_bound + 8 * MAX_FDT_SIZE;
+            let cls = if self.cur_is_toi0 && !self.cur_encoded && peak <= fdt_cap && peak <= call_bound + 64 * got.min(self.sh.max_len() as i64) {
                 "C04:alloc-per-call:fdt-document"
-            } else if self.cur_is_toi0 && self.cur_encoded && peak <= call_bound + 8 * 1032 * got {
+            } else if self.cur_is_toi0 && self.cur_encoded && peak <= fdt_cap && peak <= call_bound + 8 * 1032 * got {
                 "C04:alloc-per-call:fdt-inflated"
             } else if peak <= call_bound + 4 * (ann_blocks + ann_table) {
                 "C04:alloc-per-call:announced-block"
@@ -338,8 +343,7 @@ impl RecvEngine {
             + unfinished * (1024 * 1024 + 16 * 1024)
             + 1024 * 1024
             + 64 * self.max_xml as i64;
-        if live > bound && !self.heap17_reported {
-            self.heap17_reported = true;
+        if live > bound {
             let sum_blocks: i64 = self.ann.values().map(|x| x.0).sum();
             let sum_table: i64 = self.ann.values().map(|x| x.1).sum();
             let excess = live - bound;
@@ -347,15 +351,19 @@ impl RecvEngine {
                 "C17:heap:block-table-prealloc"
             } else if excess <= 4 * (sum_blocks + sum_table) {
                 "C17:heap-first-two-blocks"
-            } else if excess <= 2 * self.grown_toi0 {
+            } else if excess <= 2 * self.grown_toi0 && excess <= 2 * (10 + unfinished) * MAX_FDT_SIZE {
+                // since 2037586 an FDT document holds at most MAX_FDT_SIZE bytes: 10 current instances + the
+                // unfinished ones, document + parsed form
                 "C17:heap:fdt-bytes"
             } else {
                 "C17:heap:unexplained"
             };
-            o.fail(
-                cls,
-                &format!("live heap {} B > bound {} B (objects {}, unfinished FDT instances {}, cache limit {}; announced blocks {} B, block tables {} B, grown in TOI-0 calls {} B)", live, bound, nobj, unfinished, self.cfg.max_cache, sum_blocks, sum_table, self.grown_toi0),
-            );
+            if self.heap17_reported.insert(cls.to_string()) {
+                o.fail(
+                    cls,
+                    &format!("live heap {} B > bound {} B (objects {}, unfinished FDT instances {}, cache limit {}; announced blocks {} B, block tables {} B, grown in TOI-0 calls {} B)", live, bound, nobj, unfinished, self.cfg.max_cache, sum_blocks, sum_table, self.grown_toi0),
+                );
+            }
         }
         // ---- history + C19 oracle on writer creation
         let mut s = format!("{} {} {}", res, nobj, nerr);
@@ -483,7 +491,7 @@ impl Engine for RecvEngine {
         self.sh = Shadow::default();
         self.max_xml = 0;
         self.heap_reported.clear();
-        self.heap17_reported = false;
+        self.heap17_reported.clear();
         self.rx_bytes.clear();
         self.cur_encoded = false;
         self.ann.clear();
